@@ -249,6 +249,59 @@ def explain(f):
 
 
 # ------------------------------------------------------------------ the run
+def sharing_oracle(ck) -> int:
+    """object sharing (not expressible in the alias-free wire terms): one Tag / TagList / dependency object placed at
+    several positions of a tree must contribute at every position exactly what a separately built equal object
+    contributes — with dedup disabled nothing is dropped, with dedup the same names, versions and order result, and the
+    markup is the same"""
+    from htmltools import HTMLDependency, Tag, TagList
+    n = 0
+
+    def sub(k):
+        return Tag("div", HTMLDependency(f"a{k}", "1.0"), Tag("span", HTMLDependency(f"b{k}", "2.0"), "t"), HTMLDependency(f"a{k}", "1.1"))
+
+    shapes = [
+        lambda mk: TagList(*(lambda x: [x, x])(mk())) if mk.shared else TagList(mk(), mk()),
+        lambda mk: Tag("section", *((lambda x: [x, Tag("p", x), x])(mk()) if mk.shared else [mk(), Tag("p", mk()), mk()])),
+        lambda mk: TagList(*((lambda x: [Tag("ul", x, "s"), Tag("ol", Tag("li", x))])(mk()) if mk.shared else [Tag("ul", mk(), "s"), Tag("ol", Tag("li", mk()))])),
+        lambda mk: Tag("main", *((lambda x: [x] * 5)(mk()) if mk.shared else [mk() for _ in range(5)])),
+    ]
+
+    class Mk:
+        def __init__(self, k, shared):
+            self.k, self.shared = k, shared
+
+        def __call__(self):
+            return sub(self.k)
+
+    for si, shape in enumerate(shapes):
+        for k in range(3):
+            for dedup in (False, True):
+                n += 1
+                ck.holds_checked += 1
+                try:
+                    a = shape(Mk(k, True))
+                    b = shape(Mk(k, False))
+                    da = [(d.name, str(d.version)) for d in a.get_dependencies(dedup=dedup)]
+                    db = [(d.name, str(d.version)) for d in b.get_dependencies(dedup=dedup)]
+                    ha, hb = a.render()["html"], b.render()["html"]
+                    ra = [(d.name, str(d.version)) for d in a.render()["dependencies"]]
+                    rb = [(d.name, str(d.version)) for d in b.render()["dependencies"]]
+                except Exception as e:  # noqa: BLE001
+                    ck.py_violation(f"sharing shape {si} k={k} dedup={dedup}", f"raised {type(e).__name__}: {e}",
+                                    "a tree in which one object sits at several positions raised", py=f"shape {si}")
+                    continue
+                if da != db or ha != hb or ra != rb:
+                    ck.py_violation(f"sharing shape {si} k={k} dedup={dedup}", repr(da)[:300],
+                                    f"one object at several positions: get_dependencies(dedup={dedup}) = {da}, but the same tree built from "
+                                    f"separate equal objects gives {db}" + ("" if ha == hb else "; the markup differs too"),
+                                    py="x = Tag('div', HTMLDependency('a','1.0'), Tag('span', HTMLDependency('b','2.0'), 't'), HTMLDependency('a','1.1')); "
+                                       f"TagList(x, Tag('p', x), x).get_dependencies(dedup={dedup})   # shape {si}")
+    ck.exhaustive_scopes.append({"scope": "object sharing: 4 shapes in which one subtree object (with three dependencies, two of one name) "
+                                          "sits at 2-5 positions x dedup on/off, against the same tree built from separate equal objects", "n": n, "exhaustive": True})
+    return n
+
+
 def run(tier: str) -> int:
     ck = core.Check(PID, tier, PROP_FILES)
     t_start = time.time()
@@ -497,6 +550,7 @@ def run(tier: str) -> int:
     phase["python_oracles"] = round(time.time() - t1, 1)
     t1 = time.time()
     ck.add_src(['resolve_dependencies', 'Tag_get_dependencies', 'TagList_get_dependencies'])
+    ck.extra_cov["sharing_cases"] = sharing_oracle(ck)
     ck.correspond(holds=True)
     phase["model_and_statement"] = round(time.time() - t1, 1)
     ck.extra_cov["phase_s"] = phase
